@@ -646,7 +646,9 @@ func c13Final(h *History) []Violation {
 	for _, tx := range h.Trace.Blocks[len(h.Trace.Blocks)-1].Txs {
 		if strings.HasPrefix(tx.Kind, "drain.") {
 			h.Labels["c13-drain-claims"]++
-			if tx.Code != 0 && !strings.Contains(tx.Log, "account sequence mismatch") {
+			// only a claim that cannot be PAID is the property's business (a position swept away by the
+			// block's own begin-blocker, a sequence race etc. are not)
+			if tx.Code != 0 && (strings.Contains(tx.Log, "insufficient") || strings.Contains(tx.Log, "is smaller than")) {
 				out = append(out, Violation{Sig: "C13/claim-failed-in-drain", Detail: fmt.Sprintf("%s's claim in the closing drain failed: %s", tx.Signer, shorten(tx.Log, 300))})
 			}
 		}
